@@ -708,6 +708,54 @@ impl<T: Config> UdpProtocol<T> {
             return;
         }
 
+        // if we did not receive any input yet, we decode with the blank input,
+        // otherwise we use the input previous to the start of the encoded inputs
+        let decode_frame = if self.last_recv_frame() == NULL_FRAME {
+            NULL_FRAME
+        } else {
+            body.start_frame - 1
+        };
+
+        // if we have the necessary input saved, we decode. This happens before anything else the
+        // packet carries is looked at: a packet with a malformed payload is dropped as a whole,
+        // including its acknowledgement and its connection statuses.
+        let mut new_inputs = None;
+        if let Some(decode_inp) = self.recv_inputs.get(&decode_frame) {
+            let recv_inputs = match decode(&decode_inp.bytes, &body.bytes) {
+                Ok(inputs) => inputs,
+                Err(e) => {
+                    warn!("Failed to decode input packet, discarding: {e}");
+                    return;
+                }
+            };
+
+            // validate the whole packet before applying any of it: a packet with one malformed
+            // frame is dropped as a whole, not accepted up to the frame before. That includes the
+            // frames we already hold: every later frame is a delta against them.
+            let last_recv_frame = self.last_recv_frame();
+            let mut valid_inputs = Vec::new();
+            for (i, inp) in recv_inputs.into_iter().enumerate() {
+                let inp_frame = body.start_frame + i as i32;
+                let input_data = InputBytes {
+                    frame: inp_frame,
+                    bytes: inp,
+                };
+                let player_inputs = match input_data.to_player_inputs::<T>(self.handles.len()) {
+                    Ok(inputs) => inputs,
+                    Err(e) => {
+                        warn!("Discarding input packet for frame {inp_frame}: {e}");
+                        return;
+                    }
+                };
+                // skip inputs that we don't need
+                if inp_frame <= last_recv_frame {
+                    continue;
+                }
+                valid_inputs.push((input_data, player_inputs));
+            }
+            new_inputs = Some(valid_inputs);
+        }
+
         // drop pending outputs until the ack frame
         self.pop_pending_output(body.ack_frame);
 
@@ -730,50 +778,8 @@ impl<T: Config> UdpProtocol<T> {
             }
         }
 
-        // if we did not receive any input yet, we decode with the blank input,
-        // otherwise we use the input previous to the start of the encoded inputs
-        let decode_frame = if self.last_recv_frame() == NULL_FRAME {
-            NULL_FRAME
-        } else {
-            body.start_frame - 1
-        };
-
-        // if we have the necessary input saved, we decode
-        if let Some(decode_inp) = self.recv_inputs.get(&decode_frame) {
+        if let Some(new_inputs) = new_inputs {
             self.running_last_input_recv = Instant::now();
-
-            let recv_inputs = match decode(&decode_inp.bytes, &body.bytes) {
-                Ok(inputs) => inputs,
-                Err(e) => {
-                    warn!("Failed to decode input packet, discarding: {e}");
-                    return;
-                }
-            };
-
-            // validate the whole packet before applying any of it: a packet with one malformed
-            // frame is dropped as a whole, not accepted up to the frame before. That includes the
-            // frames we already hold: every later frame is a delta against them.
-            let last_recv_frame = self.last_recv_frame();
-            let mut new_inputs = Vec::new();
-            for (i, inp) in recv_inputs.into_iter().enumerate() {
-                let inp_frame = body.start_frame + i as i32;
-                let input_data = InputBytes {
-                    frame: inp_frame,
-                    bytes: inp,
-                };
-                let player_inputs = match input_data.to_player_inputs::<T>(self.handles.len()) {
-                    Ok(inputs) => inputs,
-                    Err(e) => {
-                        warn!("Discarding input packet for frame {inp_frame}: {e}");
-                        return;
-                    }
-                };
-                // skip inputs that we don't need
-                if inp_frame <= last_recv_frame {
-                    continue;
-                }
-                new_inputs.push((input_data, player_inputs));
-            }
 
             for (input_data, player_inputs) in new_inputs {
                 self.recv_inputs.insert(input_data.frame, input_data);
